@@ -45,12 +45,14 @@ func c15Content(f, cid int, valid, layoutScenario bool) string {
 	}
 	switch f {
 	case 0:
-		fm := fmt.Sprintf("---\nv: %d\nodd: %v\n", cid, cid%2 == 1)
+		fm := fmt.Sprintf("---\nv: %d\nodd: %v\nst: early%d\n", cid, cid%2 == 1, cid)
 		if layoutScenario {
 			fm += "layout: lay\n"
 		}
 		// elements whose evaluation writes attributes, driven by a front-matter value that changes from version to version
-		body := fmt.Sprintf("<p>P%d v={{ v }}</p><template include=\"comp.vuego\"></template>", cid) + c15Toggles
+		body := fmt.Sprintf("<p>P%d v={{ v }}</p><template include=\"comp.vuego\"></template>", cid) + c15Toggles +
+			// a variable of the front-matter is read, then assigned at the page's root scope: the assignment belongs to this render only
+			`<u>{{ st }}</u><template st="late" :v2="v"></template><u>{{ st }}</u>`
 		if layoutScenario { // a named slot handed to the layout: its nodes must not be shared with the cache
 			body += fmt.Sprintf("<template #side><em>S%d</em></template>", cid)
 		}
